@@ -86,6 +86,8 @@ class EDT:
                 if v[0] == "ref":
                     inner = v[1]
                     v = self.read_place(env, mem, inner)
+                elif v[0] == "pref":
+                    v = v[1]
                 continue
             if isinstance(e, dict) and "f" in e:
                 if v[0] == "t" and e["f"] < len(v[1]):
@@ -129,11 +131,51 @@ class EDT:
             sv = const_str(c)
             if sv is not None:
                 return ("str", sv)
+            if "promoted" in c:
+                return self._promoted(c["promoted"])
             return UNKNOWN
         p = op_place(o)
         if p is None:
             return UNKNOWN
         return self.read_place(env, mem, p)
+
+    def _promoted(self, idx):
+        """value of a promoted constant: straight-line evaluation of its tiny body; a reference to a
+        promoted value is ("pref", value)"""
+        ps = self.fn.raw.get("promoted") or []
+        if idx >= len(ps):
+            return UNKNOWN
+        env = {}
+
+        def ev(o):
+            if "c" in o:
+                c = o["c"]
+                if "int" in c:
+                    return C(c["int"])
+                sv = const_str(c)
+                if sv is not None:
+                    return ("str", sv)
+                return UNKNOWN
+            pl = op_place(o)
+            if pl is None or pl["p"]:
+                return UNKNOWN
+            return env.get(pl["l"], UNKNOWN)
+        for b in ps[idx]["blocks"]:
+            for st in b["s"]:
+                if st["k"] != "=" or st["lhs"]["p"]:
+                    continue
+                rv = st["rv"]
+                if rv["k"] == "use":
+                    env[st["lhs"]["l"]] = ev(rv["op"])
+                elif rv["k"] == "ref" and not rv["pl"]["p"]:
+                    env[st["lhs"]["l"]] = ("pref", env.get(rv["pl"]["l"], UNKNOWN))
+                elif rv["k"] == "agg" and rv["ak"] in ("tuple", "array"):
+                    env[st["lhs"]["l"]] = ("t", [ev(o) for o in rv["ops"]])
+                elif rv["k"] == "agg" and rv["ak"] == "adt":
+                    env[st["lhs"]["l"]] = ("agg", rv["adt"], [ev(o) for o in rv["ops"]], rv["vi"] if self.F.enums.get(rv["adt"]) else None, rv["variant"])
+                else:
+                    env[st["lhs"]["l"]] = UNKNOWN
+        return env.get(0, UNKNOWN)
 
     def place_type(self, p):
         ty = self.fn.local_ty(p["l"])
@@ -405,6 +447,7 @@ class EDT:
         gname = strip_generics(t["callee"]["fn"]) if t.get("callee") else ""
         args = [self.eval_op(env, mem, a) for a in t["args"]]
         self._cur_env, self._cur_mem = env, mem
+        self._cur_events = events
         dest = t["dest"]
         val = UNKNOWN
         model = self.models.get(name) or self.models.get(gname) or BUILTIN_MODELS.get(name)
@@ -476,7 +519,53 @@ def _identity(edt, args, t):
     return UNKNOWN
 
 
+def _deref_arg(edt, a):
+    for _ in range(3):
+        if a[0] == "ref":
+            a = edt.read_place(edt._cur_env, edt._cur_mem, a[1])
+        elif a[0] == "pref":
+            a = a[1]
+        else:
+            break
+    return a
+
+
+def _cmp_model(edt, args, t):
+    if len(args) != 2:
+        return UNKNOWN
+    a, b = _deref_arg(edt, args[0]), _deref_arg(edt, args[1])
+    if is_const(a) and is_const(b):
+        o = (a[1] > b[1]) - (a[1] < b[1])
+        name = {-1: "Less", 0: "Equal", 1: "Greater"}[o]
+        return ("agg", "core::cmp::Ordering", [], {-1: 0, 0: 1, 1: 2}[o], name)
+    return UNKNOWN
+
+
+def _replace_model(edt, args, t):
+    """core::mem::replace(&mut place, v): returns old, stores v"""
+    if len(args) != 2 or args[0][0] != "ref":
+        return UNKNOWN
+    pl = args[0][1]
+    # `(*_9)` where _9 = &mut (*_1).scope  ->  (*_1).scope
+    for _ in range(4):
+        if pl["p"] and pl["p"][0] == "*":
+            base = edt._cur_env.get(pl["l"], UNKNOWN)
+            if base[0] == "ref":
+                pl = {"l": base[1]["l"], "p": list(base[1]["p"]) + list(pl["p"][1:])}
+                continue
+        break
+    old = edt.read_place(edt._cur_env, edt._cur_mem, pl)
+    edt._cur_mem[fmt_place(None, pl)] = args[1]
+    names = [e["n"] for e in pl["p"] if isinstance(e, dict) and "f" in e]
+    if names and names[-1] in edt.fields:
+        edt._cur_events.append(("store", ".".join(names), _short(args[1]), edt.fn.loc(t)))
+    return old
+
+
 BUILTIN_MODELS = {
+    "core::cmp::Ord::cmp": _cmp_model,
+    "core::cmp::impls::<impl core::cmp::Ord for i32>::cmp": _cmp_model,
+    "core::mem::replace": _replace_model,
     "core::convert::Into::into": _identity,
     "core::convert::From::from": _identity,
     "<T as core::convert::Into>::into": _identity,
